@@ -21,7 +21,7 @@ func init() {
 			"C17.3 the generators stamp time.Now().Add(duration).Unix() formatted in base 10 as (the leading field of) the username; " +
 			"C17.4 GenerateAuthKey hashes username:realm:password of its parameters as given (no normalisation of one side's inputs); " +
 			"C17.5 the derived password depends on both the username and the shared secret on every success return and on no state outside the parameters, except a memo that is looked up under a key made of both; " +
-			"C17.6 the key a handler returns owns its bytes: it is GenerateAuthKey's result or written into fresh storage, never into a pooled or shared buffer that the next authentication overwrites. C17.7 Server.authHandler is ServerConfig.AuthHandler itself.",
+			"C17.6 the key a handler returns owns its bytes: it is GenerateAuthKey's result or written into fresh storage, never into a pooled or shared buffer that the next authentication overwrites. C17.7 Server.authHandler is ServerConfig.AuthHandler itself. C17.8 the time-windowed handlers refuse only malformed or expired usernames (closed refusal set; an expiry test in a one-line helper is followed).",
 		NotCovered: "forgery resistance of HMAC-SHA1/MD5; the clock; usernames containing further colons beyond what the derivation over the full username already binds.",
 		Run:        runC17,
 	})
@@ -118,6 +118,7 @@ func runC17(c *Ctx) {
 	rulePasswordPure(c, "C17.5")
 	ruleKeyOwnsItsBytes(c, "C17.6")
 	ruleAuthHandlerIsOperators(c, "C17.7")
+	ruleTimeWindowRefusals(c, "C17.8")
 
 	// ---- handlers
 	c.Rule("C17.1", "handlers: the password is result #0 of longTermCredentials(ra.Username, sharedSecret) — the full presented username and the captured secret of the enclosing constructor — and the key returned with ok=true is GenerateAuthKey(ra.Username, ra.Realm, that password)", 2)
